@@ -36,9 +36,9 @@ Section Shape.
 
   Lemma vstep_trans a b c : vstep A a b -> vstep A b c -> vstep A a c.
   Proof.
-    intros [Hab|(He & Hn & Hl & Hr)] Hbc; [subst b; exact Hbc|].
-    destruct Hbc as [Hbc|(He' & Hn' & Hl' & Hr')]; [subst c; right; auto|].
-    right. split; [exact He|]. split; [congruence|]. split; [congruence|].
+    intros [Hab|(He & Hn & (Hl & Hi & Ht) & Hr)] Hbc; [subst b; exact Hbc|].
+    destruct Hbc as [Hbc|(He' & Hn' & (Hl' & Hi' & Ht') & Hr')]; [subst c; right; split; [exact He|split; [exact Hn|split; [split; [exact Hl|split; [exact Hi|exact Ht]]|exact Hr]]]|].
+    right. split; [exact He|]. split; [congruence|]. split; [split; [congruence|split; congruence]|].
     destruct Hr' as [Hr'|(n & tl & e & Hin & Hb & Hlb & Hre)].
     - rewrite Hr'. exact Hr.
     - right. exists n, tl, e. rewrite <- Hn, <- Hl. auto.
@@ -227,29 +227,29 @@ Section Shape.
       eapply ext_eq; [exact (ext_trans _ _ _ _ _ _ _ H1 H2)|reflexivity|reflexivity].
   Qed.
 
-  Lemma ext_local_adds es : forall nls lastcall st,
+  Lemma ext_local_adds il es : forall nls lastcall st,
     t_frames st <> [] ->
-    ext (t_frames st) (t_frames (local_adds es nls lastcall st)) (rev (local_vars es nls lastcall)) [].
+    ext (t_frames st) (t_frames (local_adds es nls lastcall il st)) (rev (local_vars es nls lastcall il)) [].
   Proof.
     induction es as [|e r IH]; intros nls lastcall st Hne; cbn [local_adds local_vars].
-    - apply (ext_fold_add (fun nl => mkV (fst nl) (snd nl) lastcall match lastcall with RNone => true | _ => false end)).
+    - apply (ext_fold_add (fun nl => mkV5 (fst nl) (snd nl) lastcall match lastcall with RNone => true | _ => false end il None)).
       exact Hne.
     - destruct nls as [|[n nl] nls']; [apply ext_refl; exact Hne|].
-      pose proof (ext_add_var (mkV n nl (ref_of_exp e) (refer_empty n e)) _ Hne) as H1.
+      pose proof (ext_add_var (mkV5 n nl (ref_of_exp e) (refer_empty n e) il (tab_of_exp e)) _ Hne) as H1.
       pose proof (IH nls' (match e with ECall _ _ _ _ => ref_of_exp e | _ => RNone end) _ (ext_nonempty _ _ _ _ H1)) as H2.
       eapply ext_eq; [exact (ext_trans _ _ _ _ _ _ _ H1 H2)| |reflexivity].
       cbn [rev]. reflexivity.
   Qed.
 
-  Lemma ext_local_loop flv es : Forall Pe es -> forall nls lastcall st,
+  Lemma ext_local_loop flv il es : Forall Pe es -> forall nls lastcall st,
     incl (flat_map asg_exp es) A -> (length es <= length nls)%nat -> t_frames st <> [] ->
-    ext (t_frames st) (t_frames (local_loop (map (fun e => (e, tr_exp flv e)) es) nls lastcall st))
-        (rev (local_vars es nls lastcall)) (flat_map sk_exp es).
+    ext (t_frames st) (t_frames (local_loop (map (fun e => (e, tr_exp flv e)) es) nls lastcall il st))
+        (rev (local_vars es nls lastcall il)) (flat_map sk_exp es).
   Proof.
     intros Hall nls lastcall st HA Hlen Hne. unfold local_loop.
     rewrite firstn_all2 by (rewrite map_length; lia). rewrite !map_map. cbn [fst snd]. rewrite map_id.
     pose proof (ext_apply_exps flv es Hall st HA Hne) as H1.
-    pose proof (ext_local_adds es nls lastcall _ (ext_nonempty _ _ _ _ H1)) as H2.
+    pose proof (ext_local_adds il es nls lastcall _ (ext_nonempty _ _ _ _ H1)) as H2.
     eapply ext_eq; [exact (ext_trans _ _ _ _ _ _ _ H1 H2)|apply app_nil_r|apply app_nil_r].
   Qed.
 
